@@ -37,4 +37,22 @@ def writtenOk (cmd : CliCmd) (statusCanary : Option CanaryStatus) (after : SMap)
   | .freeze => SMap.get? after K.rolloutFrozenAnnot == some "true"
   | .unfreeze => SMap.get? after K.rolloutFrozenAnnot == some "false"
 
+/-- the object already is in the state the command asks for (the only other documented refusal). -/
+def alreadyInState (cmd : CliCmd) (statusCanary : Option CanaryStatus) (ann : SMap) : Bool :=
+  match cmd with
+  | .canaryPause => SMap.get? ann K.canaryPausedAnnot == some "true"
+  | .canaryUnpause => SMap.get? ann K.canaryPausedAnnot == some "false"
+  | .canaryValidate => (match statusCanary with | some cs => SMap.get? ann K.canaryValidAnnot == some cs.replicaSet | none => false)
+  | .canaryFail => false
+  | .ruPause => SMap.get? ann K.rollingUpdatePausedAnnot == some "true"
+  | .ruUnpause => SMap.get? ann K.rollingUpdatePausedAnnot == some "false" || (SMap.get? ann K.rollingUpdatePausedAnnot).isNone
+  | .freeze => SMap.get? ann K.rolloutFrozenAnnot == some "true"
+  | .unfreeze => SMap.get? ann K.rolloutFrozenAnnot == some "false" || (SMap.get? ann K.rolloutFrozenAnnot).isNone
+
+/-- a command whose precondition holds and that would change something is carried out, not refused —
+in particular `canary unpause` on a canary the controller paused by itself (Canary-Paused condition on
+the replica set, no canary-paused annotation on the ExtendedDaemonSet). -/
+def mustAct (cmd : CliCmd) (hasCanarySpec : Bool) (statusCanary : Option CanaryStatus) (ann : SMap) : Bool :=
+  precondition cmd hasCanarySpec statusCanary && !alreadyInState cmd statusCanary ann
+
 end Eds.Spec.C19
